@@ -1,4 +1,5 @@
 import VerifModel.Model.FigProps
+import Proofs.C17
 /-
   C17 — plot kinds: the documented table `Spec.Appearance.applicable` (which property exists on which
   diagram) against the plotting code of the output class behind each plot kind, on the tables that the
@@ -82,7 +83,9 @@ def kindOK (k : Kind) : Bool :=
   (classOf k).isSome && entryOK k && stylesOK k && panelsOK k && legendOK k && logOK k && datesOK k
 
 /-- the only (plot kind, property) pairs on which the code deviates from the documented table -/
-def deviates (plot : String) (f : Field) : Bool := (plot == "droc" || plot == "droc0") && (f == .xLog || f == .yLog)
+def deviates (plot : String) (f : Field) : Bool :=
+  ((plot == "droc" || plot == "droc0") && (f == .xLog || f == .yLog)) ||
+  (plot == "meteo" && (f == .xTickLabels || f == .xTickRotation))
 
 def shownOK (k : Kind) : Bool :=
   Field.all.all fun f => !applicable k.name f || deviates k.name f || shown k.name f
@@ -130,9 +133,11 @@ theorem C17_kinds_wired : ∀ k ∈ kinds, Wired k := by
   · simpa [datesOK] using h6
 
 /-- **C17_shown_partial.**  Every documented property of every plot kind is shown by the model of the code,
-    except the log scales of the deterministic ROC diagrams. -/
+    except the log scales of the deterministic ROC diagrams and the labels / rotation of the x ticks of the
+    meteogram (known findings). -/
 theorem C17_shown_partial (k : Kind) (hk : k ∈ kinds) (f : Field) (ha : applicable k.name f = true)
-    (hd : ¬ ((k.name = "droc" ∨ k.name = "droc0") ∧ (f = .xLog ∨ f = .yLog))) : shown k.name f = true := by
+    (hd : ¬ ((k.name = "droc" ∨ k.name = "droc0") ∧ (f = .xLog ∨ f = .yLog)))
+    (hm : ¬ (k.name = "meteo" ∧ (f = .xTickLabels ∨ f = .xTickRotation))) : shown k.name f = true := by
   have h := all_ok
   simp only [Bool.and_eq_true] at h
   have hk' := List.all_eq_true.mp h.1.2 k hk
@@ -140,9 +145,11 @@ theorem C17_shown_partial (k : Kind) (hk : k ∈ kinds) (f : Field) (ha : applic
   simp only [Bool.or_eq_true, Bool.not_eq_true'] at hf
   rcases hf with (hf | hf) | hf
   · rw [ha] at hf; cases hf
-  · exfalso; apply hd
+  · exfalso
     simp only [deviates, Bool.and_eq_true, Bool.or_eq_true, beq_iff_eq] at hf
-    exact hf
+    rcases hf with hf | hf
+    · exact hd hf
+    · exact hm hf
   · exact hf
 
 /-- the negation of the full statement, on the witnesses of the known findings -/
@@ -160,13 +167,69 @@ theorem C17_render_shows (c : Cfg) (fp : FigProps) (f : Field) (v : String) (hv 
   simp only [shownParts, List.mem_filterMap]
   exact ⟨f, field_mem_all f, by simp [hv, ho]⟩
 
+/-- the dependency clause of `observable`: grid styling needs a grid, legend text / place a visible legend,
+    annotation contents annotations, the boundary locations margins -/
+def depsAllow (fp : FigProps) (f : Field) : Bool :=
+  match f with
+  | .gridColor | .gridStyle | .gridWidth => (fp .gridOff).isNone
+  | .legendEntries | .legendLoc => fp .legendSize != some "0"
+  | .annotationFields | .annotationSize => (fp .annotate).isSome
+  | .marginLeft | .marginRight | .marginTop | .marginBottom => (fp .marginsRemoved).isNone
+  | _ => true
+
+private theorem observable_eq (c : Cfg) (fp : FigProps) (f : Field) :
+    observable c fp f = (shown c.plot f && depsAllow fp f) := by
+  cases f <;> rfl
+
+/-- **C17_wired_effect.**  For EVERY plot kind of the check (all 28 documented diagrams, `-hist`, `-sort`, the
+    standard plot on three axes, the four `-type`s) and EVERY documented appearance option `e` (all 43 rows of the
+    Spec's table): if the property of `e` exists on the kind (`applicable`, the documented table), the pair is not
+    one of the recorded deviations, the option is given value `v` anywhere on the command line and not again
+    later, and no documented dependency makes it void, then the canonical line of the model of the code — which
+    `_adjust_axis` applies to `gca` resp. to every panel of the kinds made of panels (`Wired.panels`) — shows the
+    property with the documented value of `v`. -/
+theorem C17_wired_effect (k : Kind) (hk : k ∈ kinds) (e : Spec.Appearance.Entry) (he : e ∈ Spec.Appearance.table)
+    (ha : applicable k.name e.field = true) (hd : deviates k.name e.field = false)
+    (n : Nat) (pre post : Opts) (v : String) (h : ∀ x ∈ post, x.1 ≠ e.flag)
+    (hdep : depsAllow (applyOptions ⟨k.name, n, pre ++ (e.flag, v) :: post⟩) e.field = true) :
+    (e.field, renderField ⟨k.name, n, pre ++ (e.flag, v) :: post⟩ e.field (Spec.Appearance.value e.flag v))
+      ∈ shownParts ⟨k.name, n, pre ++ (e.flag, v) :: post⟩ (applyOptions ⟨k.name, n, pre ++ (e.flag, v) :: post⟩) := by
+  have hs : shown k.name e.field = true := by
+    have h0 := all_ok
+    simp only [Bool.and_eq_true] at h0
+    have hk' := List.all_eq_true.mp h0.1.2 k hk
+    have hf := List.all_eq_true.mp hk' e.field (field_mem_all e.field)
+    simp only [Bool.or_eq_true, Bool.not_eq_true'] at hf
+    rcases hf with (hf | hf) | hf
+    · rw [ha] at hf; cases hf
+    · rw [hd] at hf; cases hf
+    · exact hf
+  apply C17_render_shows _ _ _ _ (VerifModel.C17.C17_effect_documented e he k.name n pre post v h)
+  rw [observable_eq]
+  simp only [hs, hdep, Bool.and_self]
+
+/-- the negation of the full statement on the witnesses of the known findings meteo-xticklabels / meteo-xrot:
+    documented, not shown by the code (`-xrot`: unless the proposed patch is merged, `meteoXrotRepaired`) -/
+theorem C17_meteo_labels_not_shown :
+    applicable "meteo" .xTickLabels = true ∧ shown "meteo" .xTickLabels = false ∧
+    applicable "meteo" .xTickRotation = true ∧ shown "meteo" .xTickRotation = meteoXrotRepaired ∧
+    shown "meteo" .xTicks = true ∧ shown "meteo" .yTickRotation = true ∧ shown "timeseries" .xTickRotation = true := by
+  decide +kernel
+
 /-! ## 4. Non-vacuity -/
 
 example : kinds.length = 37 := by decide
 
 /-- the hypotheses of C17_shown_partial are satisfiable, and its conclusion is used: the Q-Q plot shows line colours -/
 example : shown "qq" .seriesColor = true :=
-  C17_shown_partial ⟨"qq", "qq", "", "", ""⟩ (by decide) .seriesColor (by decide) (by decide)
+  C17_shown_partial ⟨"qq", "qq", "", "", ""⟩ (by decide) .seriesColor (by decide) (by decide) (by decide)
+
+/-- C17_wired_effect is used on a new (option, diagram) pair: `-m taylor -gc red -xrot 45` shows the rotation 45 -/
+example : (Field.xTickRotation, renderField ⟨"taylor", 2, [("-gc", "red"), ("-xrot", "45")]⟩ .xTickRotation
+      (Spec.Appearance.value "-xrot" "45")) ∈
+    shownParts ⟨"taylor", 2, [("-gc", "red"), ("-xrot", "45")]⟩ (applyOptions ⟨"taylor", 2, [("-gc", "red"), ("-xrot", "45")]⟩) :=
+  C17_wired_effect ⟨"taylor", "taylor", "", "", ""⟩ (by decide) ⟨"-xrot", .xTickRotation, .number⟩ (by decide)
+    (by decide) (by decide) 2 [("-gc", "red")] [] "45" (by simp) (by rfl)
 
 /-- the wiring clauses are not vacuous: the Q-Q plot hands the options to `mpl.plot`, the PIT histogram nowhere,
     the discrimination diagram to the bars; the ignorance-contribution diagram adjusts all panels -/
